@@ -25,7 +25,7 @@ from sim.oracle import chaos, missed_tuple, snap, snap_diff
 
 PROPERTY = "C13"
 LEVEL = "exploration"
-RUNS = {"quick": 40000, "thorough": 1000000}
+RUNS = {"quick": 100000, "thorough": 1500000}
 WALL = {"quick": 240, "thorough": 1500}
 PARTITIONS = [{"name": "default", "env": {}}]
 FAULT_KINDS = ["projection_beyond_source_dtype", "masked_array_assigned", "bulk_batch", "lossy_conversion_probe", "narrowing_probe", "mixed_dtype_arith", "float_weight_into_int",
